@@ -319,6 +319,14 @@ def runSched (cfg : Cfg) (n : Nat) (acts : List String) : String :=
 def stepLine (_ : Unit) (ws : List String) : Unit × String :=
   let bad (i : String) := ((), i ++ " bad-op")
   match ws with
+  | ["case", i, client, n, ids, script, _vars] =>
+    -- `_vars`: the public entry point each caller used (call_json, call_typed_beve, registry_read, …):
+    -- all of them go through the same call path of the model
+    match cfgOf (natOf client) with
+    | none => bad i
+    | some cfg =>
+      let idl := (splitCommas ids).map natOf
+      if idl.length ≠ natOf n then bad i else ((), i ++ " " ++ runCase cfg idl (splitCommas script))
   | ["case", i, client, n, ids, script] =>
     match cfgOf (natOf client) with
     | none => bad i
